@@ -27,7 +27,7 @@ def nof_apply(modes, nof, ops, placeholders, st):
         new = {}
         for s_, a in vec.items():
             val = coeff.xreplace({placeholders[k]: sympy.Integer(s_[k]) for k in range(len(ops))})
-            val = val.subs({sym: 1 for sym in val.free_symbols})
+            val = val.subs({sym: SYMVALS.get(sym.name, 1) for sym in val.free_symbols})
             val = complex(sympy.N(val, 30))
             if val != 0: new[s_] = a * val
         vec = new
@@ -37,6 +37,9 @@ def nof_apply(modes, nof, ops, placeholders, st):
         for s_, a in vec.items(): out[s_] = out.get(s_, 0) + a
     return {s_: a for s_, a in out.items() if a != 0}
 
+# symbolic parameters of a Hamiltonian (not perturbative ones) and the values they get when matrix elements are taken; `g` is a complex symbol
+SYMVALS = {"g": sympy.Rational(3, 10) + sympy.Rational(2, 5) * sympy.I, "w": sympy.Rational(5, 2)}
+G = sympy.Symbol("g"); W_ = sympy.Symbol("w", positive=True)
 ORDER = {'b': 0, 'l': 1, 's': 2, 'f': 3}; KIND = {'b': BosonOp, 'l': LadderOp, 's': pauli.SigmaMinus, 'f': FermionOp}
 SYSTEMS = [
  ("anharmonic boson", [('b', 'a')], lambda d: 2 * Dagger(d['a']) * d['a'] + Q(1, 3) * (Dagger(d['a']) * d['a'])**2,
@@ -57,6 +60,9 @@ SYSTEMS = [
  ("matrix-valued: equal diagonal entries, non-self-adjoint coupling entry", [('b', 'a')],
   lambda d: sympy.Matrix([[2 * Dagger(d['a']) * d['a'] + Q(1, 3) * (Dagger(d['a']) * d['a'])**2, 0], [0, 2 * Dagger(d['a']) * d['a'] + Q(1, 3) * (Dagger(d['a']) * d['a'])**2]]),
   lambda d: sympy.Matrix([[0, Q(1, 2) * d['a'] + Q(1, 3) * Dagger(d['a'])], [Q(1, 2) * Dagger(d['a']) + Q(1, 3) * d['a'], 0]])),
+ ("symbolic: complex coupling constant g (a plain Symbol) and a symbolic frequency", [('b', 'a')],
+  lambda d: W_ * Dagger(d['a']) * d['a'] + Q(1, 3) * (Dagger(d['a']) * d['a'])**2,
+  lambda d: G * d['a'] + sympy.conjugate(G) * Dagger(d['a']) + G**2 * d['a']**2 + sympy.conjugate(G)**2 * Dagger(d['a'])**2),
  ("matrix-valued: different diagonal entries, two subspaces", [('b', 'a')],
   lambda d: sympy.Matrix([[2 * Dagger(d['a']) * d['a'], 0], [0, 2 * Dagger(d['a']) * d['a'] + Q(7, 3)]]),
   lambda d: sympy.Matrix([[d['a'] + Dagger(d['a']), 1 + Dagger(d['a'])], [1 + d['a'], d['a'] + Dagger(d['a'])]])),
